@@ -8,7 +8,9 @@ extractor reads the three sites off the source (pure AST, nothing is executed):
 
   sites.doc    S1  `convert_dict`: the working dict (the name that is returned) is first bound by
                    `copy.deepcopy(<first parameter>)` and afterwards only re-bound by `_convert(<itself>, …)`
-  sites.step   S2  `_convert`: the returned name is bound (only) by `copy.deepcopy(<first parameter>)`
+  sites.step   S2  `_convert`: the returned name is bound (only) by `copy.deepcopy(<first parameter>)` → .deep;
+                   by `copy.copy(x)` / `dict(x)` / `{**x}` / `x.copy()` → .shallow; anything else → .alias
+                   (informative: for `convert_dict` the theorems `*_weak` hold for every mode at S2)
   sites.const  S3  `_convert`, branch `isinstance(v, Constant)`: every value stored there is `copy.deepcopy(<call>)`
 
 plus two side conditions of the model:
@@ -16,6 +18,9 @@ plus two side conditions of the model:
   paramWrites       parameters of `_convert` / `convert_dict` (and names aliased to (parts of) them without a
                     copy — a tiny taint pass in source order) that are the base object of a subscript store, a
                     `del x[...]`, an augmented assignment or an in-place mutator call.  Must be [].
+  docWrites         the subset of paramWrites that hits an object of `convert_dict`'s caller: all writes in
+                    `convert_dict`, and in `_convert` those that do not go (solely) through its first parameter
+                    `mapped_dict` (with S1 copying, that is convert_dict's private copy).  Must be [].
   nestedReadsInput  the `._mapper` branch reads the content from the FIRST PARAMETER (`mapped_dict.get(...)`) and
                     only ever stores `_convert(content, …)` / `[_convert(x, …) for x in content]` (which copy),
                     never the content itself.
@@ -69,6 +74,59 @@ def _deepcopy_names(tree):
         if isinstance(n, ast.arg):
             rebound.add(n.arg)
     return {d for d in names if d.split(".")[0] not in rebound}
+
+
+def _shallowcopy_names(tree):
+    """the dotted names that denote `copy.copy` in this module"""
+    names = set()
+    for n in tree.body:
+        if isinstance(n, ast.Import):
+            for a in n.names:
+                if a.name == "copy":
+                    names.add((a.asname or "copy") + ".copy")
+        if isinstance(n, ast.ImportFrom) and n.module == "copy":
+            for a in n.names:
+                if a.name == "copy":
+                    names.add(a.asname or "copy")
+    rebound = set()
+    for n in ast.walk(tree):
+        if isinstance(n, (ast.FunctionDef, ast.ClassDef)):
+            rebound.add(n.name)
+        if isinstance(n, ast.Name) and isinstance(n.ctx, ast.Store):
+            rebound.add(n.id)
+        if isinstance(n, ast.arg):
+            rebound.add(n.arg)
+    return {d for d in names if d.split(".")[0] not in rebound}
+
+
+def _is_shallow_of_name(e, tree, name):
+    """`copy.copy(x)`, `dict(x)`, `{**x, …}`, `x.copy()` — a new top-level dict with the same children"""
+    def is_x(a):
+        return isinstance(a, ast.Name) and a.id == name
+    if isinstance(e, ast.Call) and not e.keywords:
+        if ast.unparse(e.func) in _shallowcopy_names(tree) and len(e.args) == 1 and is_x(e.args[0]):
+            return True
+        if isinstance(e.func, ast.Name) and e.func.id == "dict" and len(e.args) == 1 and is_x(e.args[0]):
+            return True
+        if isinstance(e.func, ast.Attribute) and e.func.attr == "copy" and not e.args and is_x(e.func.value):
+            return True
+    if isinstance(e, ast.Dict):
+        return any(k is None and is_x(v) for k, v in zip(e.keys, e.values))
+    return False
+
+
+def _copy_mode(e, tree, dc, name):
+    """how an expression binds a working dict from `name`: deep / shallow / alias (= anything else)"""
+    if e is None:
+        return "alias"
+    if _is_deepcopy_of_name(e, dc, name):
+        return "deep"
+    if _is_shallow_of_name(e, tree, name):
+        return "shallow"
+    return "alias"
+
+
+_RANK = {"alias": 0, "shallow": 1, "deep": 2}
 
 
 def _is_deepcopy(e, dc):
@@ -152,19 +210,26 @@ def site_doc(tree, dc):
     if not rets:
         return "alias", fn.lineno, "no plain `return <name>`"
     line = 0
+    worst = None
     for r in set(rets):
         if r == p0:
             return "alias", fn.lineno, "returns its parameter"
         bs = _bindings(fn, r)
-        if not bs or not _is_deepcopy_of_name(bs[0][1], dc, p0):
-            return "alias", (bs[0][0] if bs else fn.lineno), f"`{r}` is not first bound by deepcopy({p0})"
+        if not bs:
+            return "alias", fn.lineno, f"`{r}` never bound"
+        mode = _copy_mode(bs[0][1], tree, dc, p0)
+        if mode == "alias":
+            return "alias", bs[0][0], f"`{r}` is not first bound by a copy of {p0}"
         line = bs[0][0]
         for ln, v in bs[1:]:
-            ok = _is_deepcopy_of_name(v, dc, p0) or (
-                _is_call_to(v, "_convert") and v.args and isinstance(v.args[0], ast.Name) and v.args[0].id == r)
-            if not ok:
+            m2 = _copy_mode(v, tree, dc, p0)
+            if m2 == "alias" and not (_is_call_to(v, "_convert") and v.args and isinstance(v.args[0], ast.Name)
+                                      and v.args[0].id == r):
                 return "alias", ln, f"`{r}` re-bound by something else"
-    return "deep", line, f"{rets[0]} = deepcopy({p0})"
+            if m2 != "alias" and _RANK[m2] < _RANK[mode]:
+                mode, line = m2, ln
+        worst = mode if worst is None or _RANK[mode] < _RANK[worst] else worst
+    return worst, line, f"{rets[0]} = {'deepcopy' if worst == 'deep' else 'shallow copy'}({p0})"
 
 
 def site_step(tree, dc):
@@ -177,6 +242,7 @@ def site_step(tree, dc):
     if not rets:
         return "alias", fn.lineno, "no plain `return <name>`"
     line = 0
+    worst = None
     for r in set(rets):
         if r == p0:
             return "alias", fn.lineno, "returns its parameter"
@@ -184,10 +250,12 @@ def site_step(tree, dc):
         if not bs:
             return "alias", fn.lineno, f"`{r}` never bound"
         for ln, v in bs:
-            if not _is_deepcopy_of_name(v, dc, p0):
-                return "alias", ln, f"`{r}` bound by something other than deepcopy({p0})"
-        line = bs[0][0]
-    return "deep", line, f"{rets[0]} = deepcopy({p0})"
+            m = _copy_mode(v, tree, dc, p0)
+            if m == "alias":
+                return "alias", ln, f"`{r}` bound by something that is not a copy of {p0}"
+            if worst is None or _RANK[m] < _RANK[worst]:
+                worst, line = m, ln
+    return worst, line, f"{rets[0]} = {'deepcopy' if worst == 'deep' else 'shallow copy'}({p0})"
 
 
 def _branches(fn):
@@ -296,27 +364,29 @@ def _root_name(e):
 
 
 def _derived(e, tainted, dc):
-    """the expression evaluates to (a part of) an object a tainted name refers to, without a copy"""
+    """the parameters (a frozenset of names; empty = none) such that the expression evaluates to (a part of) an
+    object one of them refers to, without a copy.  `tainted` maps a name to the parameters it derives from."""
+    none = frozenset()
     if isinstance(e, ast.Name):
-        return e.id in tainted
+        return tainted.get(e.id, none)
     if isinstance(e, (ast.Subscript, ast.Attribute, ast.Starred)):
         return _derived(e.value, tainted, dc)
     if isinstance(e, ast.Call):
         if _is_deepcopy(e, dc):
-            return False
+            return none
         f = e.func
         if isinstance(f, ast.Attribute) and f.attr in READERS:
             return _derived(f.value, tainted, dc)
         if isinstance(f, ast.Name) and f.id in ("enumerate", "reversed", "iter", "zip"):
-            return any(_derived(a, tainted, dc) for a in e.args)
-        return False
+            return frozenset().union(*[_derived(a, tainted, dc) for a in e.args]) if e.args else none
+        return none
     if isinstance(e, ast.IfExp):
-        return _derived(e.body, tainted, dc) or _derived(e.orelse, tainted, dc)
+        return _derived(e.body, tainted, dc) | _derived(e.orelse, tainted, dc)
     if isinstance(e, ast.BoolOp):
-        return any(_derived(v, tainted, dc) for v in e.values)
+        return frozenset().union(*[_derived(v, tainted, dc) for v in e.values])
     if isinstance(e, ast.NamedExpr):
         return _derived(e.value, tainted, dc)
-    return False
+    return none
 
 
 def _target_names(t):
@@ -324,7 +394,8 @@ def _target_names(t):
 
 
 def param_writes(tree, dc):
-    """[(function, name, line, what)] — writes through a parameter object or an un-copied alias of one"""
+    """[(function, name, line, what, origins)] — writes through a parameter object or an un-copied alias of one;
+    `origins` = the parameters of that function the written object derives from (sorted tuple)"""
     out = []
     for fname in ("_convert", "convert_dict"):
         fn = _find_fn(tree, fname)
@@ -336,30 +407,38 @@ def param_writes(tree, dc):
             params.append(a.vararg.arg)
         if a.kwarg:
             params.append(a.kwarg.arg)
-        tainted = set(params)
+        tainted = {x: frozenset([x]) for x in params}
+
+        def bind(names, origins):
+            for nm in names:
+                if origins:
+                    tainted[nm] = origins
+                else:
+                    tainted.pop(nm, None)
 
         def check(node):
             for n in ast.walk(node):
                 if isinstance(n, ast.Subscript) and isinstance(n.ctx, (ast.Store, ast.Del)):
-                    if _derived(n.value, tainted, dc):
+                    o = _derived(n.value, tainted, dc)
+                    if o:
                         out.append((fname, _root_name(n.value) or "?", n.lineno,
-                                    "del" if isinstance(n.ctx, ast.Del) else "store"))
+                                    "del" if isinstance(n.ctx, ast.Del) else "store", tuple(sorted(o))))
                 if isinstance(n, ast.Call) and isinstance(n.func, ast.Attribute) and n.func.attr in MUTATORS:
-                    if _derived(n.func.value, tainted, dc):
-                        out.append((fname, _root_name(n.func.value) or "?", n.lineno, "." + n.func.attr))
+                    o = _derived(n.func.value, tainted, dc)
+                    if o:
+                        out.append((fname, _root_name(n.func.value) or "?", n.lineno, "." + n.func.attr,
+                                    tuple(sorted(o))))
                 if isinstance(n, (ast.ListComp, ast.SetComp, ast.DictComp, ast.GeneratorExp)):
                     for g in n.generators:
-                        if _derived(g.iter, tainted, dc):
-                            tainted.update(_target_names(g.target))
+                        o = _derived(g.iter, tainted, dc)
+                        if o:
+                            bind(_target_names(g.target), o)
 
         for st in _linear(fn):
             compound = isinstance(st, (ast.For, ast.AsyncFor, ast.If, ast.While, ast.With, ast.AsyncWith, ast.Try))
             if isinstance(st, (ast.For, ast.AsyncFor)):
                 check(st.iter)
-                if _derived(st.iter, tainted, dc):
-                    tainted.update(_target_names(st.target))
-                else:
-                    tainted.difference_update(_target_names(st.target))
+                bind(_target_names(st.target), _derived(st.iter, tainted, dc))
             elif isinstance(st, (ast.If, ast.While)):
                 check(st.test)
             elif isinstance(st, (ast.With, ast.AsyncWith)):
@@ -371,25 +450,33 @@ def param_writes(tree, dc):
             check(st)
             if isinstance(st, ast.AugAssign):
                 tgt = st.target
-                if (isinstance(tgt, ast.Name) and tgt.id in tainted) or (
-                        isinstance(tgt, (ast.Subscript, ast.Attribute)) and _derived(tgt.value, tainted, dc)):
-                    if not isinstance(tgt, ast.Subscript):     # subscript targets were already counted as stores
-                        out.append((fname, _root_name(tgt) or "?", st.lineno, "augassign"))
+                o = tainted.get(tgt.id, frozenset()) if isinstance(tgt, ast.Name) else (
+                    _derived(tgt.value, tainted, dc) if isinstance(tgt, (ast.Subscript, ast.Attribute)) else frozenset())
+                if o and not isinstance(tgt, ast.Subscript):     # subscript targets were already counted as stores
+                    out.append((fname, _root_name(tgt) or "?", st.lineno, "augassign", tuple(sorted(o))))
             if isinstance(st, ast.Assign):
                 d = _derived(st.value, tainted, dc)
                 for t in st.targets:
                     if isinstance(t, ast.Name):
-                        (tainted.add if d else tainted.discard)(t.id)
+                        bind([t.id], d)
                     elif isinstance(t, (ast.Tuple, ast.List)):
-                        for nm in _target_names(t):
-                            (tainted.add if d else tainted.discard)(nm)
+                        bind(_target_names(t), d)
             if isinstance(st, ast.AnnAssign) and isinstance(st.target, ast.Name) and st.value is not None:
-                (tainted.add if _derived(st.value, tainted, dc) else tainted.discard)(st.target.id)
+                bind([st.target.id], _derived(st.value, tainted, dc))
     seen = []
     for w in out:
         if w not in seen:
             seen.append(w)
     return seen
+
+
+def doc_writes(tree, writes):
+    """the writes that hit an object of `convert_dict`'s CALLER: everything in `convert_dict`, and in `_convert`
+    everything that does not derive solely from its first parameter (`mapped_dict`: when S1 copies, that is
+    convert_dict's private copy — or, in a nested call, a part of it)"""
+    fn = _find_fn(tree, "_convert")
+    first = fn.args.args[0].arg if fn is not None and fn.args.args else None
+    return [w for w in writes if not (w[0] == "_convert" and first is not None and set(w[4]) <= {first})]
 
 
 def read_all():
@@ -400,7 +487,8 @@ def read_all():
         "doc": site_doc(tree, dc),
         "step": site_step(tree, dc),
         "const": site_const(tree, dc),
-        "writes": param_writes(tree, dc),
+        "writes": (w := param_writes(tree, dc)),
+        "doc_writes": doc_writes(tree, w),
         "nested": nested_reads_input(tree),
     }
 
@@ -411,10 +499,15 @@ def render(info):
         return f"-- {label}: line {line}: {note}  ==> .{mode}"
     writes = info["writes"]
     names = []
-    for fname, name, _, _ in writes:
+    for fname, name, *_ in writes:
         q = f"{fname}.{name}"
         if q not in names:
             names.append(q)
+    dnames = []
+    for fname, name, *_ in info["doc_writes"]:
+        q = f"{fname}.{name}"
+        if q not in dnames:
+            dnames.append(q)
     nb, nline, nnote = info["nested"]
     lines = [
         "/- generated by extract/aliasing_c17.py from typedpy/" + REL + " — do not edit -/",
@@ -431,13 +524,17 @@ def render(info):
             info["doc"][0], info["step"][0], info["const"][0]),
         "",
     ]
-    for fname, name, line, what in writes:
-        lines.append(f"-- write through a parameter object: {fname}: `{name}` line {line} ({what})")
+    for fname, name, line, what, origins in writes:
+        lines.append(f"-- write through a parameter object: {fname}: `{name}` line {line} ({what}; derives from "
+                     + ", ".join(origins) + ")")
     if not writes:
         lines.append("-- no write through a parameter object (or an un-copied alias of one) in _convert / convert_dict")
     lines += [
         "/-- parameters (or un-copied aliases of them) that are written through -/",
         "def paramWrites : List String := [" + ", ".join(lean_str(n) for n in names) + "]",
+        "/-- the subset that hits an object of `convert_dict`'s caller: writes in `convert_dict`, and in `_convert` writes",
+        "    that do not go through its first parameter (which is `convert_dict`'s private copy when S1 copies) -/",
+        "def docWrites : List String := [" + ", ".join(lean_str(n) for n in dnames) + "]",
         "",
         f"-- `._mapper` branch: line {nline}: {nnote}",
         "/-- the `._mapper` branch reads the content from the first parameter and stores only recursive conversions of it -/",
@@ -465,5 +562,6 @@ if __name__ == "__main__":
     for k in ("doc", "step", "const", "nested"):
         print(k, info[k])
     print("writes", info["writes"])
+    print("doc_writes", info["doc_writes"])
     path = generate()
     print("wrote" if LAST_CHANGED else "unchanged", path)
